@@ -443,10 +443,36 @@ func (c *Ctx) checkMessageDefaults() {
 			if len(r.Results) < 7 || !retMayBeNil(r, 6) {
 				continue
 			}
+			isARP := func(v ssa.Value) bool { _, f, okf := fieldLoad(v); return okf && f.Name() == "AcceptedRelayPattern" }
 			a, pos := normCond(retVal(r, 5))
 			if a.Op == token.EQL && !pos {
-				_, f, okf := fieldLoad(a.X)
-				okAware = okf && f.Name() == "AcceptedRelayPattern" && isNilConst(a.Y)
+				okAware = isARP(a.X) && isNilConst(a.Y)
+			} else if ph, isPhi := retVal(r, 5).(*ssa.Phi); isPhi {
+				// a flag set on the two edges of the nil test: true exactly behind != nil, false exactly behind == nil
+				present := nilCheckEdges(fn, false, isARP)
+				absent := nilCheckEdges(fn, true, isARP)
+				okAware = len(present) > 0 && len(absent) > 0
+				for i, e := range ph.Edges {
+					cst, isC := e.(*ssa.Const)
+					if !isC || cst.Value == nil {
+						okAware = false
+						continue
+					}
+					cert := absent
+					if cst.Value.String() == "true" {
+						cert = present
+					}
+					pred := ph.Block().Preds[i]
+					viaCert := false
+					for _, ce := range cert {
+						if ce.From == pred && ce.To() == ph.Block() {
+							viaCert = true
+						}
+					}
+					if !viaCert && psSearch(fn.Blocks[0], cert, nil, func(b *ssa.BasicBlock) bool { return b == pred }) != nil {
+						okAware = false
+					}
+				}
 			}
 		}
 		c.check(okAware, rule, "relay-pattern awareness is AcceptedRelayPattern != nil", p.Pos(fn.Pos()), "", "the 'supports relay pattern' flag is not derived from the presence of the field")
